@@ -488,6 +488,68 @@ def run_modelrun(exe, trace, timeout=1500, extra=None):
     return rc, out
 
 
+def shared_stages_for(pid):
+    path = os.path.join(VERIF, "props", "_shared.py")
+    if not os.path.exists(path):
+        return []
+    spec = importlib.util.spec_from_file_location("props_shared", path)
+    m = importlib.util.module_from_spec(spec)
+    spec.loader.exec_module(m)
+    return [st for st in getattr(m, "SHARED", []) if pid in st.get("props", [])]
+
+
+def tree_fingerprint():
+    """Identify the state of the repo working tree (HEAD + uncommitted diff + untracked go files)."""
+    h = hashlib.sha1()
+    for cmd in (["git", "-C", REPO, "rev-parse", "HEAD"], ["git", "-C", REPO, "diff", "HEAD"],
+                ["git", "-C", REPO, "status", "--porcelain"]):
+        rc, out = sh(cmd, timeout=120)
+        h.update(out.encode())
+    return h.hexdigest()[:16]
+
+
+def run_shared_stage(st, pid, tier, seed):
+    """Run (or reuse) a cross-property harness stage; return (lines for pid, stats)."""
+    name = st["name"]
+    key = "%s-%s-%s-%s" % (name, tree_fingerprint(), tier, seed)
+    cdir = os.path.join(SCRATCH, "shared", key)
+    outf = os.path.join(cdir, "out.txt")
+    statf = os.path.join(cdir, "stats.json")
+    lock = os.path.join(SCRATCH, "shared", name + ".lock")
+    os.makedirs(os.path.join(SCRATCH, "shared"), exist_ok=True)
+    with open(lock, "w") as lf:
+        fcntl.flock(lf, fcntl.LOCK_EX)
+        if not os.path.exists(outf):
+            os.makedirs(cdir, exist_ok=True)
+            ok, exe, blog = build_harness(st["harness"])
+            if not ok:
+                open(outf, "w").write("HARNESS-ERROR prop=* shared stage %s does not build: %s\n" % (name, blog.strip()[-500:].replace("\n", " | ")))
+            else:
+                n = st.get("tiers", {}).get(tier, {}).get("cases", 200)
+                rc, out, trace, stats = run_harness_once(exe, {"id": "shared-" + name}, tier, seed, "check", n, cdir,
+                                                         extra=st.get("harness_args", []),
+                                                         timeout=st.get("timeout", 900))
+                if rc != 0 and "SPEC-VIOLATION" not in out:
+                    out += "\nHARNESS-ERROR prop=* shared stage %s exit=%d %s" % (name, rc, out.strip()[-300:].replace("\n", " | "))
+                open(outf, "w").write(out)
+                json.dump(stats or {}, open(statf, "w"))
+        fcntl.flock(lf, fcntl.LOCK_UN)
+    lines = []
+    for l in open(outf).read().split("\n"):
+        m = re.search(r"\bprop=(\S+)", l)
+        if not m:
+            continue
+        if m.group(1) == pid or m.group(1) == "*":
+            lines.append(re.sub(r"\s*\bprop=\S+", "", l, count=1))
+    stats = {}
+    if os.path.exists(statf):
+        try:
+            stats = json.load(open(statf))
+        except Exception:
+            stats = {}
+    return lines, stats
+
+
 def classify(lines):
     spec, corr, other = [], [], []
     for l in lines:
@@ -575,6 +637,21 @@ def run_check(pid, tier, seed):
         err_lines += e
         xstats = xr.get("stats", {})
         evaluations += int(xstats.get("evaluations", 0))
+
+    # ---- B''. shared cross-property stages (props/_shared.py): one harness run per (tree, seed, tier), cached;
+    #      each SPEC-VIOLATION line carries prop=Cnn and is attributed to that property's check only
+    sstats = {}
+    for st in shared_stages_for(pid):
+        try:
+            lines, one = run_shared_stage(st, pid, tier, seed)
+        except Exception as ex:
+            lines, one = ["HARNESS-ERROR shared stage %s raised %r" % (st.get("name"), ex)], {}
+        s, c, e = classify(lines)
+        spec_lines += s
+        corr_lines += c
+        err_lines += e
+        sstats[st["name"]] = one
+        evaluations += int(one.get("cases", 0))
 
     # ---- C. verdict
     unlisted_spec = []
@@ -666,7 +743,7 @@ def run_check(pid, tier, seed):
             "disagreements_checked": len(corr_lines),
             "spec_violations_seen": len(spec_lines),
             "known_findings_seen": [s for s, _ in known_seen],
-            "input_distribution": hstats, "model_stats": mstats, "extra_stage": xstats,
+            "input_distribution": hstats, "model_stats": mstats, "extra_stage": xstats, "shared_stages": sstats,
             "proof_problems": ps.get("problems", []),
             "broken": broken, "coqchk": coqchk,
             "explanation": prop.get("explanation", ""),
